@@ -380,7 +380,20 @@ func mutatePolicyV(r *rand.Rand, v ref.V) (ref.V, string) {
 		return ref.Int(1), "not-a-list"
 	}
 	st := stmts[r.IntN(len(stmts))]
-	switch r.IntN(8) {
+	switch r.IntN(10) {
+	case 8:
+		// null where the list of statements of a connective belongs (or the whole policy)
+		if (st.L[0].S == "and" || st.L[0].S == "or") && len(st.L) == 2 {
+			st.L[1] = ref.Null()
+			return out, "statement-list-null"
+		}
+		return ref.Null(), "policy-null"
+	case 9:
+		if st.L[0].S == "not" && len(st.L) == 2 {
+			st.L[1] = ref.Null()
+			return out, "statement-null"
+		}
+		return ref.List(ref.List(ref.Str("or"), ref.Null())), "statement-list-null"
 	case 0:
 		st.L = append(st.L, ref.Str("extra"))
 		return out, "extra-element"
